@@ -42,9 +42,9 @@ WR_ALL = both(wr.rule_wr_ret, wr.rule_wr_prop, wr.rule_wr_fin, wr.rule_wr_top, w
 CONF_ALL = both(conf.rule_pa_conf, conf.rule_wr_order, conf.rule_pa_excl, conf.rule_pa_hdrcall, conf.rule_hd_arity, conf.rule_pa_with, conf.rule_rs_proto)
 AG_ALL = both(ag.rule_ag_route, ag.rule_ag_init, ag.rule_ag_stage, ag.rule_ag_const, ag.rule_ag_sib, ag.rule_ag_starcount, ag.rule_ag_keyord, agfold.rule_ag_fold, agfold.rule_ag_median) + one(ag.rule_ag_mad)
 JN_ALL = both(ag.rule_jn_dispatch, ag.rule_jn_joiners, ag.rule_jn_build, ag.rule_pa_join)
-HD_ALL = both(hd.rule_hd_table, hd.rule_hd_startwin, hd.rule_hd_except, hd.rule_hd_update, conf.rule_hd_countpos) + one(hd.rule_hd_shapes)
+HD_ALL = both(hd.rule_hd_table, hd.rule_hd_startwin, hd.rule_hd_except, hd.rule_hd_update, hd.rule_hd_emit, conf.rule_hd_countpos) + one(hd.rule_hd_shapes)
 VA_ALL = both(hd.rule_va_index, hd.rule_va_enum, hd.rule_va_esc) + one(hd.rule_va_record)
-PA_ALL = both(pa.rule_pa_case, pa.rule_pa_withcase, pa.rule_pa_groups, pa.rule_pa_litorder, pa.rule_pa_cleanorder, pa.rule_pa_lit, pa.rule_pa_litcheck, pa.rule_pa_top, pa.rule_pa_zero, pa.rule_pa_asc, pa.rule_pa_redund)
+PA_ALL = both(pa.rule_pa_case, pa.rule_pa_withcase, pa.rule_pa_groups, pa.rule_pa_litorder, pa.rule_pa_cleanorder, pa.rule_pa_lit, pa.rule_pa_litflow, pa.rule_pa_subst, pa.rule_pa_litcheck, pa.rule_pa_top, pa.rule_pa_zero, pa.rule_pa_asc, pa.rule_pa_redund)
 CS_ALL = both(cs.rule_rx_field, cs.rule_rx_newline, cs.rule_rx_ws, cs.rule_cs_trigger, cs.rule_cs_accept, cs.rule_cs_width, cs.rule_cs_extws, cs.rule_cs_dispatch, cs.rule_cs_writer)
 XP_ALL = one(xp.rule_rx_xp, xp.rule_xp_keywords, xp.rule_xp_roles, xp.rule_xp_messages, xp.rule_xp_verdicts)
 OW_ALL = both(ow.rule_ow_mut, ow.rule_ow_fresh, ow.rule_ow_selwrap, ow.rule_ow_open, ow.rule_ow_fs) + one(ow.rule_ow_sql, ow.rule_ow_pandas)
@@ -54,7 +54,7 @@ GS_ALL = one(gs.rule_gs_modstate, gs.rule_gs_classattr, gs.rule_gs_defaults, gs.
 LK_ALL = both(lk.rule_lk_taint, lk.rule_lk_map, lk.rule_lk_anchor, lk.rule_lk_part, lk.rule_lk_cache) + one(lk.rule_rx_jsesc)
 RS_ALL = one(rs.rule_rs_close, rs.rule_rs_epipe, rs.rule_rs_decerr)
 FL_ALL = both(rs.rule_fl_flags, rs.rule_fl_fields, rs.rule_fl_none_complete)
-IF_ALL = one(ifc.rule_if_layer, ifc.rule_if_conf, ifc.rule_if_entry, ifc.rule_if_args, ifc.rule_if_df, ifc.rule_cl_stdout, ifc.rule_cl_exit, ifc.rule_cl_mode)
+IF_ALL = one(ifc.rule_if_layer, ifc.rule_if_conf, ifc.rule_if_entry, ifc.rule_if_args, ifc.rule_if_df, ifc.rule_cl_stdout, ifc.rule_cl_exit, ifc.rule_cl_mode, ifc.rule_cl_presence) + both(ifc.rule_if_regfresh, hd.rule_hd_emit)
 
 
 def only(rules, port):
@@ -70,7 +70,7 @@ def only(rules, port):
 
 PROPS = {
     'C01': {
-        'rules': SK_LOOP + SK_SELECT + both(sk.rule_sk_stop, sk.rule_sk_err) + both(hd.rule_va_index, hd.rule_hd_startwin, hd.rule_hd_except, ow.rule_ow_fresh, ow.rule_ow_selwrap),
+        'rules': SK_LOOP + SK_SELECT + both(sk.rule_sk_stop, sk.rule_sk_err) + both(hd.rule_va_index, hd.rule_hd_startwin, hd.rule_hd_except, ow.rule_ow_fresh, ow.rule_ow_selwrap, pa.rule_pa_litflow, pa.rule_pa_subst),
         'thorough_rules': both(sk.rule_sk_alias, wr.rule_wr_ret, wr.rule_wr_prop) + one(xp.rule_xp_verdicts),
         'explanation': 'Decides the loop structure of every generated SELECT program (all 16 select configurations per port, composed by partially evaluating the code generator from its own source): end-of-input test before NR, NR/NF definitions, variable initialisation dominating every user fragment and placed inside the join-match loop, WHERE control dependence, exactly one emission per evaluation selected by (aggregation stage, UNNEST), UNNEST reset on every cycle through the select fragment, join pairing order; plus aN/a[N] -> index N-1 with the safe_get guard, star/EXCEPT expansion as fresh lists.',
         'not_decided': 'that the regex-based rewriting of an arbitrary select list preserves its meaning (comma structure inside nested brackets, AS inside expressions); values computed by user expressions.',
@@ -88,13 +88,13 @@ PROPS = {
         'not_decided': 'numerical exactness of the nine accumulators (variance formula, even/odd median, int -> float fallback): statements about runtime values; no rule pins an arithmetic expression.',
     },
     'C04': {
-        'rules': JN_ALL + both(sk.rule_sk_join, sk.rule_sk_vars, pa.rule_pa_groups, hd.rule_va_index),
+        'rules': JN_ALL + both(sk.rule_sk_join, sk.rule_sk_vars, sk.rule_sk_unnest, pa.rule_pa_groups, hd.rule_va_index),
         'thorough_rules': both(sk.rule_sk_where, sk.rule_sk_emit, sk.rule_sk_unnest, sk.rule_sk_upd, sk.rule_sk_err) + one(xp.rule_xp_keywords, xp.rule_rx_xp),
         'explanation': 'Decides join pairing structure: longest join keyword wins, keyword -> joiner table total and name-consistent, B map appended in read order with 1-based bNR and (bNR, bNF, record) triples, build() before joiner construction, LEFT null record of max_record_len Nones, STRICT != 1 raises, A-side and B-side key representations switch on the same condition, ON accepts = and == in either operand order, NR keys -> index -1; in the generated program each A record is paired with get_rhs(key) matches in order and the whole select block (variables, WHERE, SELECT, sort/group key) is inside the match loop; UPDATE JOIN: >1 raises, 1 binds, 0 binds Nones and skips assignments.',
         'not_decided': 'equality of key values (hashing of user data) - trusted to dict/Map semantics.',
     },
     'C05': {
-        'rules': SK_LOOP + SK_UPDATE + both(sk.rule_sk_join, sk.rule_sk_err, sk.rule_sk_stop, hd.rule_va_index, ow.rule_ow_mut),
+        'rules': SK_LOOP + SK_UPDATE + both(sk.rule_sk_join, sk.rule_sk_err, sk.rule_sk_stop, hd.rule_va_index, ow.rule_ow_mut, pa.rule_pa_litflow, pa.rule_pa_subst),
         'thorough_rules': both(hd.rule_hd_update, conf.rule_pa_excl, ow.rule_ow_fresh),
         'explanation': 'Decides the UPDATE programs (4 configurations per port): up_fields is a fresh copy of record_a made each iteration before assignments and write; variables are bound from the original record before any assignment (so right-hand sides see original values); exactly one writer.write(up_fields) per input record on every normal path, not control-dependent on WHERE; NU += 1 under the same guard immediately before the assignments; generated assignments are safe_set(up_fields, index, value) whose out-of-range store raises the bad-field error that the per-record handler reports with the record number.',
         'not_decided': 'splitting of an arbitrary assignment list by the assignment regex (a statement about all strings).',
@@ -118,13 +118,13 @@ PROPS = {
         'not_decided': 'the exact language of Python/JS string literals accepted by the literal regex.',
     },
     'C09': {
-        'rules': VA_ALL + both(rd.rule_rd_hdrflag, rd.rule_rd_replay, conf.rule_pa_with, sk.rule_sk_nr, pa.rule_pa_withcase),
+        'rules': VA_ALL + both(rd.rule_rd_hdrflag, rd.rule_rd_replay, conf.rule_pa_with, sk.rule_sk_nr, pa.rule_pa_withcase, pa.rule_pa_subst),
         'thorough_rules': both(sk.rule_sk_eof, sk.rule_sk_vars) + one(xp.rule_rx_xp),
         'explanation': 'Decides variable binding structure: name -> index maps are built from header positions, a.name / a["name"] / direct names store that position, the escape function doubles backslashes first and covers quote/LF/CR with the same quote character as the generated key text, the candidate filter only searches for segments the escape leaves unchanged; header line replay flag is always the negation of has_header, WITH (header/noheader) reaches both iterators before their variable maps are built; NR is counted by the engine loop.',
         'not_decided': 'completeness of the candidate filter for spellings of a name other than the canonical escaped one.',
     },
     'C10': {
-        'rules': both(cs.rule_cs_trigger, cs.rule_cs_dispatch, cs.rule_cs_width, cs.rule_cs_writer, cs.rule_rx_field, rs.rule_fl_flags, rs.rule_fl_none_complete) + one(rd.rule_rd_jschunk),
+        'rules': both(cs.rule_cs_trigger, cs.rule_cs_dispatch, cs.rule_cs_width, cs.rule_cs_writer, cs.rule_rx_field, rs.rule_fl_flags, rs.rule_fl_none_complete, rd.rule_rd_bom) + one(rd.rule_rd_jschunk),
         'thorough_rules': both(cs.rule_cs_accept, cs.rule_cs_extws, cs.rule_rx_newline) + one(xp.rule_rx_xp),
         'explanation': 'Decides necessary conditions of the round trip (stated as such): the characters that trigger quoting include every character the reader treats specially under the same policy, inner quotes are doubled (globally) and the field enclosed, reader/writer dispatch tables are total over the five policies and pair matching split/join, delimiter comparisons and position steps use the delimiter length, one separator per record, and lossy output (None, delimiter in simple output) always sets its warning flag which get_warnings reports.',
         'not_decided': 'equality of the table read back for any table (a round-trip statement over all strings); encoding behaviour of io.TextIOWrapper.',
@@ -148,7 +148,7 @@ PROPS = {
         'not_decided': 'equality of results across back-ends (depends on pandas/sqlite value conversion).',
     },
     'C14': {
-        'rules': both(sk.rule_sk_err, sk.rule_sk_nr, conf.rule_pa_hdrcall, conf.rule_pa_excl, hd.rule_va_index) + FL_ALL + one(rs.rule_rs_decerr, ifc.rule_cl_exit),
+        'rules': both(sk.rule_sk_err, sk.rule_sk_nr, conf.rule_pa_hdrcall, conf.rule_pa_excl, hd.rule_va_index, rd.rule_rd_bom, agfold.rule_ag_fold) + FL_ALL + one(rs.rule_rs_decerr, ifc.rule_cl_exit),
         'thorough_rules': both(sk.rule_sk_eof, rd.rule_rd_bom, cs.rule_cs_accept, ag.rule_ag_const),
         'explanation': 'Decides error/warning structure: one try covers every user fragment in every generated program; handlers never fall through (first offending record ends the query); bad field -> runtime error with index+1 and NR, bad key with the key and NR, parsing errors re-raised unchanged, anything else -> runtime error with NR; text-detectable conflicts raise the parsing class before the header is handed over and nothing can raise after it; decode faults map to the IO class; each warning flag has one neutral initialisation, set-sites only under its condition and one guarding read in get_warnings; field-count warning records the first record per count and cites the two smallest.',
         'not_decided': '"iff the condition occurred" for conditions defined over string contents (e.g. exactness of the delimiter-count heuristic).',
@@ -160,7 +160,7 @@ PROPS = {
         'not_decided': 'OS-level behaviour of pipes and the text wrapper\'s flushing.',
     },
     'C16': {
-        'rules': GS_ALL + py(sk.rule_sk_scope, lk.rule_lk_cache, ow.rule_ow_mut) + one(hd.rule_va_record),
+        'rules': GS_ALL + py(sk.rule_sk_scope, lk.rule_lk_cache, ow.rule_ow_mut) + one(hd.rule_va_record) + py(ifc.rule_if_regfresh),
         'thorough_rules': py(sk.rule_sk_alias),
         'explanation': 'Decides isolation as absence of shared mutable state (hence independence of every schedule and history): inventory of module-level bindings with every mutable one never the receiver of a mutating operation; `global` writes allow-listed (two debug flags); no class-level mutable attribute, no mutable default; the per-query context is created per call, only passed down or captured by per-run closures; exec receives explicit globals and a per-call locals mapping and runs the composed skeleton whose every binding is local to the wrapper function; the LIKE cache lives in the context.',
         'not_decided': 'stdlib-internal caches (re) and whatever user expressions touch; the JavaScript module-global query_context is outside this property\'s anchors and reported only as evidence.',
@@ -172,13 +172,13 @@ PROPS = {
         'not_decided': 'nothing further for single-line texts once re.escape / RegExp semantics are trusted (`.` and `$` treat LF specially - outside the quantifier).',
     },
     'C18': {
-        'rules': XP_ALL + both(cs.rule_rx_field, cs.rule_rx_ws, cs.rule_rx_newline, cs.rule_cs_trigger, cs.rule_cs_accept, cs.rule_cs_width, cs.rule_cs_extws, cs.rule_cs_dispatch, hd.rule_hd_table) + one(rd.rule_rd_jschunk),
+        'rules': XP_ALL + both(cs.rule_rx_field, cs.rule_rx_ws, cs.rule_rx_newline, cs.rule_cs_trigger, cs.rule_cs_accept, cs.rule_cs_width, cs.rule_cs_extws, cs.rule_cs_dispatch, hd.rule_hd_table, rd.rule_rd_bom) + one(rd.rule_rd_jschunk),
         'thorough_rules': both(rd.rule_rd_bom, rd.rule_rd_comment, rd.rule_rd_rfc, rs.rule_fl_flags, rs.rule_fl_fields, cs.rule_rx_newline, cs.rule_rx_ws),
         'explanation': 'Decides agreement of canonical facts extracted independently from each port: 27 paired regexes language-equal (or allow-listed with reason), both quoted-field regexes equal to the reference language, same quote trigger sets, same acceptance rule and delimiter-width handling, same policy dispatch, same statement keywords and groups (FROM only in Python), same reader warning and IO error message templates, same header naming decision table; both ports are held to the same rule for BOM/comment/RFC handling.',
         'not_decided': 'header inference on arbitrary select lists (python ast vs JS text spans are different algorithms); behavioural equality of the two reader architectures.',
     },
     'C19': {
-        'rules': only(SK_ALL, 'js') + only(WR_ALL, 'js') + only(CONF_ALL, 'js') + only(AG_ALL, 'js') + only(JN_ALL, 'js') + only(HD_ALL, 'js') + js(ow.rule_ow_mut, ow.rule_ow_fresh) + one(xp.rule_xp_verdicts, xp.rule_xp_roles),
+        'rules': only(SK_ALL, 'js') + only(WR_ALL, 'js') + only(CONF_ALL, 'js') + only(AG_ALL, 'js') + only(JN_ALL, 'js') + only(HD_ALL, 'js') + js(ow.rule_ow_mut, ow.rule_ow_fresh, pa.rule_pa_subst, pa.rule_pa_litflow) + one(xp.rule_xp_verdicts, xp.rule_xp_roles),
         'thorough_rules': only(PA_ALL, 'js') + only(VA_ALL, 'js') + one(xp.rule_rx_xp, xp.rule_xp_keywords),
         'explanation': 'Applies to rbql.js every rule that defines the reference semantics of C01-C05 and C07 (same rule = same semantics): all skeleton rules on the 20 composed JS programs, writer chain, configuration table, aggregates, joins, header rules, and the ownership analysis for the caller\'s arrays; plus cross-port agreement of parser outcomes and class sets.',
         'not_decided': 'meaning of user expressions in two languages.',
